@@ -135,6 +135,9 @@ func configsFor(in *Instance, mode int, full bool) []Config {
 		} else {
 			cats, singles = true, mode == SurroundNone
 		}
+		if in.Op == "field-enum-retarget" {
+			cats = mode == SurroundNone
+		}
 	} else {
 		shallow := in.Pos == "top" || in.Pos == "file"
 		if in.Op == "file-option" && !strings.HasPrefix(in.Site, "a.proto:") {
@@ -144,8 +147,19 @@ func configsFor(in *Instance, mode int, full bool) []Config {
 			// its rule belongs to are independent; the thorough tier keeps the full product.
 			shallow = false
 		}
+		if in.Op == "field-enum-retarget" && !enumRetargetConfigRelation(in.Variant) {
+			// quick (fourth round): which categories / single rules / versions a rule is active in is independent of the
+			// relation between the two enums - the 21 extra configs run on one relation per family (7 of 24)
+			shallow = false
+		}
 		if mode == SurroundNone && shallow {
 			cats, singles = true, !table
+			if table && in.Base != "proto3" {
+				// quick (fourth round, pays for the enum-retarget operator): the handlers are the same in every version,
+				// so the v1beta1 / v1 unions run over the whole table of the proto3 base only; the proto2 / editions
+				// tables run under the v2 union and the v2 categories. The thorough tier keeps the full product.
+				unions = unions[2:]
+			}
 		} else {
 			unions = unions[2:] // v2 only
 		}
@@ -185,6 +199,7 @@ func run(r *evid.Run) {
 		"file syntax over {proto2, proto3, edition 2023, no declaration}; " +
 		"ignore configurations = per operator of a fixed list and edited file one case x 3 versions x use in {all four categories, the narrowest ID list incl. deprecated IDs} x ignore_only maps of 1 or 2 entries over the key alphabet {expected rules, their categories, the deprecated IDs they replace, one unrelated rule} and the path alphabet {here, elsewhere} (+ ignore: [elsewhere]; + except: [key] under the union), both textual orders, x every rotation of buf's ID maps (map seeds); " +
 		"many-files modules = n small files each with one of six documented edits plus unrelated additions, n from one below the switch to parallel chunks (8 files per unit of parallelism) through every remainder to one past the next multiple and 16p+1, parallelism p in {2,3,4} (thorough: 5, 8) and the machine's own, two package layouts; " +
+		"enum retargets = an enum field moves to ANOTHER enum whose relation to the previous one is enumerated: every previous non-zero value kept / renumbered (name kept) / renamed (number kept) / dropped (quick: one value changed, or all renumbered; thorough: all 63 vectors), numbers swapped between two or rotated among three values, a renumbered value whose number a new name takes over, a value moved onto another's number (allow_alias), zero value renamed / renumbered, another short name with identical values, and compatible controls (identical, reordered superset, aliases added) x target location {new holder message, existing message, other file of the package, other package} x field shape {singular, repeated, oneof member, map value} at the 4 positions; " +
 		"compound edits = a field keeps its number and is renamed while its scalar kind / message or enum type / map key or value type / cardinality changes too (20 combinations incl. 8 on map fields, plus type + cardinality together) at the 4 positions; " +
 		"ignore-path relations = one module of 12 files whose paths are string prefixes / extensions / tails of each other, one ignore path per configuration out of every file, every directory and 14 names that only exist as string prefixes or extensions (35 paths), as ignore / ignore_only by rule / ignore_only by category x 3 versions x use in {categories, rule list}; " +
 		"v2 workspaces = 2 and 3 modules of six edited files each, every assignment of a section alphabet {none, use WIRE, use FILE, except, ignore, ignore_only, ignore_unstable_packages} to the modules x a top-level alphabet {none, FILE, all, WIRE_JSON, except, unstable, ignore paths in the first / last module, whole module directories, ignore_only}, module directories unrelated or one a string prefix of the other in both list orders; every module checked with the config buf derives for it, a covering subset also on disk through `buf breaking --against`; " +
@@ -195,6 +210,7 @@ func run(r *evid.Run) {
 	r.Assume("ignore configurations are only applied to edits inside one file that exists in both versions (buf also matches ignore paths against the previous file of a moved / deleted element)")
 	r.Assume("an ignore / ignore_only path silences exactly the file it names or the files below the directory it names (containment by path components, relative to the module, in a v2 workspace relative to the workspace); any other string relation between the path and a file's path leaves the rules active for the file")
 	r.Assume("in a buf.yaml v2 a module is governed by its own breaking section when it has one, otherwise by the top-level breaking section, otherwise by the default `use: FILE` - independently of the sections of the other modules; ignore_unstable_packages does not concern packages with a stable version suffix (v1)")
+	r.Assume("an enum field may move to another enum without a FIELD_WIRE_COMPATIBLE_TYPE / FIELD_WIRE_JSON_COMPATIBLE_TYPE failure only if the short name is the same and every previous value exists in the new enum under the same name with the same number (documented subset of name/number values); every other relation is claimed, FIELD_SAME_TYPE is claimed for every change of the type name")
 	r.Assume("a compound edit on one field is reported by every rule documented for either edit; which of the two field names a message quotes is left open (the number and the message are required)")
 	r.Assume("category membership is the documented rule matrix transcribed in ref.go (docMembershipV2 + per-version deltas); buf's own tables are compared against it (oracle rule-table)")
 	r.Assume("positions are checked by line (the renderer puts every element on its own line); columns are not checked")
@@ -244,6 +260,11 @@ func run(r *evid.Run) {
 				modes = []int{SurroundNone, SurroundBefore}
 				if in.Op == "field-type" {
 					modes = []int{SurroundNone}
+				}
+				if in.Op == "field-enum-retarget" && in.Pos != "top" {
+					// the category / single-rule configs run at the top position without surrounding; the other
+					// positions run once, in the index-shifting surrounding
+					modes = []int{SurroundBefore}
 				}
 			}
 			for _, m := range modes {
@@ -387,17 +408,29 @@ func run(r *evid.Run) {
 	r.Set("phase_seconds_path_relations_and_workspaces", int(time.Since(t0).Seconds()))
 	t0 = time.Now()
 	// one base at a time (bounds memory: every instance holds its own copy of the new schema)
+	retargetBreaking, retargetCompatible := 0, 0
+	retargetRelations := map[string]int{}
 	if want("main") {
 		process(SyntaxInstances())
 		for _, b := range Bases() {
 			if r.Expired() {
 				break
 			}
-			process(append(Instances(b, full), CompoundInstances(b, full)...))
+			retarget := EnumRetargetInstances(b, full)
+			brk, compat, rels := EnumRetargetStats(retarget)
+			retargetBreaking += brk
+			retargetCompatible += compat
+			for k, v := range rels {
+				retargetRelations[k] += v
+			}
+			process(append(append(Instances(b, full), CompoundInstances(b, full)...), retarget...))
 		}
 	}
 	r.Set("phase_seconds_main", int(time.Since(t0).Seconds()))
 	r.Set("instances", totalInstances)
+	r.Set("enum_retarget_instances_subset_broken", retargetBreaking)
+	r.Set("enum_retarget_instances_compatible_controls", retargetCompatible)
+	r.Set("enum_retarget_instances_per_relation", retargetRelations)
 	r.Set("work_items", totalItems)
 
 	r.Set("expectation_checks_per_rule", ruleExpected)
@@ -426,7 +459,7 @@ func run(r *evid.Run) {
 	}
 	if !r.Expired() {
 		if len(onlyOps) == 0 {
-			for _, op := range []string{"field-default-values", "enum-alias-delete-number", "field-type-name", "file-syntax", "file-syntax-neutral", "field-compound"} {
+			for _, op := range []string{"field-default-values", "enum-alias-delete-number", "field-type-name", "file-syntax", "file-syntax-neutral", "field-compound", "field-enum-retarget"} {
 				if opCount[op] == 0 {
 					r.Incomplete("operator never exercised: " + op)
 				}
